@@ -104,6 +104,8 @@ def run(R, ctx):
                 bad = f"{m}: {len(others)} calls for {sum(1 for s_ in somes if s_ == 'Some')} additional writers"
             if somes and somes[-1] != 'None':
                 bad = f"{m}: the loop over the additional writers ends early"
+            if not somes:
+                bad = f"{m}: with primary writer = {multi} the additional writers are not iterated at all: file writers registered with add_writer are never addressed"
             n += 1
         R.check('R18.4', f"{hb.path}|fan-out", not bad and n >= 3, f"{n} rows", f"{bad}", where=hb.loc())
 
